@@ -811,3 +811,164 @@ Proof.
     + intros Hql. rewrite Hbit by lia. exact Hq3.
     + intros j Hj1 Hj2 Hj3. rewrite Hbit by lia. now apply Hq2.
 Qed.
+
+(** * From bitmaps to maps: "mapped" is "present" *)
+
+Lemma runs_facts bit : forall rs cur hi pos esz f,
+  runs_from bit cur hi pos esz f rs ->
+  Forall (fun r => cur <= g_pfn r /\ rend r <= hi /\ 1 <= g_cnt r) rs /\
+  StronglySorted (fun a b => rend a <= g_pfn b) rs /\
+  forall p, existsb (fun r => inb r p) rs = (cur <=? p) && (p <? hi) && bit p.
+Proof.
+  induction rs as [|r t IH]; intros cur hi pos esz f H; cbn [runs_from] in H.
+  - split; [constructor|]. split; [constructor|]. intros p. cbn [existsb].
+    destruct (N.leb_spec cur p); destruct (N.ltb_spec p hi); cbn [andb]; try reflexivity.
+    symmetry. now apply H.
+  - destruct H as (H1 & H2 & H3 & H4 & H5 & H6 & H7 & H8).
+    destruct (IH _ _ _ _ _ H8) as (A1 & A2 & A3).
+    fold (rend r) in *. split; [|split].
+    + constructor; [repeat split; assumption|].
+      eapply Forall_impl; [|exact A1]. cbn beta. intros a (Ha1 & Ha2 & Ha3). unfold rend in *. lia.
+    + constructor; [exact A2|]. eapply Forall_impl; [|exact A1]. cbn beta. intros a (Ha1 & _). exact Ha1.
+    + intros p. cbn [existsb]. rewrite A3. unfold inb.
+      destruct (N.leb_spec (g_pfn r) p); destruct (N.ltb_spec p (rend r)); cbn [andb orb].
+      * rewrite (H6 p) by (unfold rend in *; lia).
+        destruct (N.leb_spec cur p); destruct (N.ltb_spec p hi); cbn [andb]; try reflexivity;
+          unfold rend in *; lia.
+      * destruct (N.leb_spec (rend r) p); destruct (N.leb_spec cur p); cbn [andb]; try reflexivity;
+          unfold rend in *; lia.
+      * destruct (N.leb_spec (rend r) p); [unfold rend in *; lia|]. cbn [andb].
+        destruct (N.leb_spec cur p); destruct (N.ltb_spec p hi); cbn [andb]; try reflexivity.
+        symmetry. apply H5; lia.
+      * unfold rend in *. lia.
+Qed.
+
+Definition map_of (s : src) (rs : list region) : fmap :=
+  {| regions := rs; start_pfn := s_start s; end_pfn := s_end s |}.
+
+(* the region list of file [s] is what pfn_regions_from_bitmap produces for it *)
+Definition built_from (s : src) (rs : list region) : Prop :=
+  s_start s <= s_end s /\ s_end s < W /\
+  exists off esz, runs_from (bit_of (s_msb0 s) (s_bitmap s)) (s_start s) (s_end s) off esz true rs.
+
+Lemma built_map s rs : built_from s rs ->
+  wf_map (map_of s rs) /\ forall p, mapped1 (map_of s rs) p = present1 s p.
+Proof.
+  intros (H1 & H2 & off & esz & Hr). destruct (runs_facts _ _ _ _ _ _ _ Hr) as (A1 & A2 & A3).
+  split.
+  - unfold wf_map, map_of. cbn [regions start_pfn end_pfn]. split; [exact H1|]. split; [exact H2|].
+    split.
+    + split; [|exact A2]. eapply Forall_impl; [|exact A1]. cbn beta. intros a (Ha1 & Ha2 & Ha3).
+      split; [exact Ha3|lia].
+    + eapply Forall_impl; [|exact A1]. cbn beta. tauto.
+  - intros p. unfold mapped1, map_of, present1. cbn [regions]. apply A3.
+Qed.
+
+Theorem mapped_is_present : forall ss rss,
+  Forall2 built_from ss rss ->
+  StronglySorted (fun a b => s_end a <= s_start b) ss ->
+  let maps := map (fun x => map_of (fst x) (snd x)) (combine ss rss) in
+  wf_maps maps /\ forall p, mapped maps p = present ss p.
+Proof.
+  intros ss rss HF. induction HF as [|s rs ss rss Hb HF IH]; intros Hs; cbn zeta.
+  - cbn [combine map]. split; [split; constructor|reflexivity].
+  - inversion Hs as [|? ? Hs' Hall]; subst. destruct (IH Hs') as [[W1 W2] Hm].
+    destruct (built_map s rs Hb) as [Hwm Hp1].
+    cbn [combine map fst snd]. split; [split|].
+    + constructor; assumption.
+    + constructor; [exact W2|]. apply Forall_forall. intros m Hin.
+      apply in_map_iff in Hin. destruct Hin as [[s' rs'] [<- Hin]].
+      apply in_combine_l in Hin. rewrite Forall_forall in Hall. cbn [map_of end_pfn start_pfn fst snd].
+      now apply Hall.
+    + intros p. unfold mapped, present in *. cbn [existsb]. rewrite Hp1. f_equal. apply Hm.
+Qed.
+
+(** sort_pfn_file_maps: a sorted permutation; with pairwise disjoint,
+    non-empty windows "sorted by end_pfn" is the order [wf_maps] wants *)
+From Coq Require Import Sorting.Permutation.
+
+Lemma insert_map_perm m l : Permutation (insert_map m l) (m :: l).
+Proof.
+  induction l as [|x t IH]; cbn [insert_map]; [reflexivity|].
+  destruct (end_pfn m <=? end_pfn x); [reflexivity|]. rewrite IH. apply perm_swap.
+Qed.
+
+Lemma sort_maps_perm l : Permutation (sort_maps l) l.
+Proof.
+  induction l as [|x t IH]; cbn [sort_maps fold_right]; [reflexivity|].
+  fold (sort_maps t). rewrite insert_map_perm. now constructor.
+Qed.
+
+Lemma insert_map_sorted m l :
+  StronglySorted (fun a b => end_pfn a <= end_pfn b) l ->
+  StronglySorted (fun a b => end_pfn a <= end_pfn b) (insert_map m l).
+Proof.
+  induction l as [|x t IH]; intros Hs; cbn [insert_map].
+  - constructor; constructor.
+  - inversion Hs as [|? ? Hs' Hall]; subst.
+    destruct (N.leb_spec (end_pfn m) (end_pfn x)) as [Hle|Hgt].
+    + constructor; [exact Hs|]. constructor; [exact Hle|].
+      eapply Forall_impl; [|exact Hall]. cbn beta. intros a Ha. lia.
+    + constructor; [apply IH; exact Hs'|].
+      eapply Permutation_Forall; [symmetry; apply insert_map_perm|].
+      constructor; [lia|exact Hall].
+Qed.
+
+Theorem sort_maps_sorted l : StronglySorted (fun a b => end_pfn a <= end_pfn b) (sort_maps l).
+Proof.
+  induction l as [|x t IH]; cbn [sort_maps fold_right]; [constructor|].
+  apply insert_map_sorted. exact IH.
+Qed.
+
+Lemma sorted_disjoint_windows l :
+  StronglySorted (fun a b => end_pfn a <= end_pfn b) l ->
+  Forall (fun m => start_pfn m < end_pfn m) l ->
+  ForallOrdPairs (fun a b => end_pfn a <= start_pfn b \/ end_pfn b <= start_pfn a) l ->
+  StronglySorted (fun a b => end_pfn a <= start_pfn b) l.
+Proof.
+  induction 1 as [|a l Hs IH Hall]; intros Hne Hdis; [constructor|].
+  inversion Hne as [|? ? Ha Hne']; subst. inversion Hdis as [|? ? Hda Hdis']; subst.
+  constructor; [now apply IH|].
+  rewrite Forall_forall in *. intros b Hb. specialize (Hall b Hb). specialize (Hda b Hb).
+  specialize (Hne' b Hb). cbn beta in *. lia.
+Qed.
+
+(** the descriptor lookup of diskdump_read_page fails ("Excluded page")
+    exactly for the frames whose page-map bit is clear *)
+Theorem page_lookup_iff_mapped maps p : wf_maps maps -> p < W ->
+  exists o, page_desc_lookup maps p = Val o /\ (o = None <-> mapped maps p = false).
+Proof.
+  intros Hwf Hp. destruct (unmapped_step_spec maps p Hwf Hp) as [o [Ho Hspec]].
+  unfold page_desc_lookup. unfold unmapped_step in Ho.
+  destruct (find_file_map maps 0 p) as [mi|].
+  2:{ inversion Ho; subst o. eexists. split; [reflexivity|]. tauto. }
+  destruct (nth_map maps mi) as [m|]; [|discriminate].
+  destruct (start_pfn m <=? p).
+  2:{ inversion Ho; subst o. eexists. split; [reflexivity|]. tauto. }
+  destruct (find_region m p) as [[ri|]| |]; try discriminate.
+  2:{ inversion Ho; subst o. eexists. split; [reflexivity|]. tauto. }
+  destruct (nth_region (regions m) ri) as [rgn|]; [|discriminate].
+  destruct (g_pfn rgn <=? p).
+  - inversion Ho; subst o. eexists. split; [reflexivity|].
+    destruct Hspec as (Hlt & Hall & _). rewrite (Hall p ltac:(lia) Hlt).
+    split; discriminate.
+  - inversion Ho; subst o. eexists. split; [reflexivity|]. tauto.
+Qed.
+
+(** the pinned code: defects 5 and 29 *)
+Definition two_files : list fmap :=
+  [ {| regions := [ {| g_pfn := 0; g_cnt := 4; g_pos := 0 |} ]; start_pfn := 0; end_pfn := 8 |};
+    {| regions := [ {| g_pfn := 12; g_cnt := 4; g_pos := 96 |} ]; start_pfn := 8; end_pfn := 16 |} ].
+Definition touching_files : list fmap :=
+  [ {| regions := [ {| g_pfn := 4; g_cnt := 4; g_pos := 0 |} ]; start_pfn := 0; end_pfn := 8 |};
+    {| regions := [ {| g_pfn := 8; g_cnt := 4; g_pos := 96 |} ]; start_pfn := 8; end_pfn := 16 |} ].
+
+Lemma pinned_find_mapped_wrong :
+  find_mapped_pfn false two_files 5 = Val None /\ mapped two_files 12 = true /\
+  find_mapped_pfn true two_files 5 = Val (Some 12).
+Proof. vm_compute. repeat split; reflexivity. Qed.
+
+Lemma pinned_find_unmapped_wrong :
+  find_unmapped_pfn false touching_files 4 = Val 8 /\ mapped touching_files 8 = true /\
+  find_unmapped_pfn true touching_files 4 = Val 12.
+Proof. vm_compute. repeat split; reflexivity. Qed.
